@@ -42,7 +42,7 @@ LEAF = {
     "u8": ".uint 8", "u16": ".uint 16", "u32": ".uint 32", "u64": ".uint 64",
     "i8": ".sint 8", "i16": ".sint 16", "i32": ".sint 32", "i64": ".sint 64",
     "bool": ".bool", "String": ".text", "Bytes": ".bytes", "ByteVec": ".bytes", "Int": ".int",
-    "PositiveCoin": ".uint 64", "NonZeroInt": ".nzint", "EmptyMap": ".emptyMap", "AnyCbor": ".any",
+    "PositiveCoin": ".posCoin", "NonZeroInt": ".nzint", "EmptyMap": ".emptyMap", "AnyCbor": ".any",
     "PlutusData": ".any",
 }
 WRAP1 = {"Vec": ".vec", "Option": ".opt", "KeepRaw": ".keepRaw", "Nullable": ".nullable", "Set": ".set",
